@@ -625,3 +625,14 @@ Example fresh_idle iss irs mp wnd : idle_state (u32 (iss + 1)) (u32 (irs + 1)) f
 Proof.
   apply idle_state_intro; try reflexivity; try apply u32_u32.
 Qed.
+
+(* a non-trivial instance: 30 bytes written, sent and acknowledged, then the closing exchange *)
+Definition after_transfer : tcp :=
+  run (fresh_conn 1000 5000 1460 30000)
+      [EWrite (repeat 7 30); ESeg (mkSeg 5001 1031 fAck 30000 [] false false) 300000000].
+Example idle_after_transfer : idle_state 1031 5001 false after_transfer.
+Proof. apply idle_state_intro; vm_compute; try reflexivity; split; [discriminate|reflexivity]. Qed.
+Example close_after_transfer :
+  estate (run after_transfer [EShutW; ESeg (seg_ack 5001 1032 30000 false false) 300000000;
+                              ESeg (seg_fin 5001 1032 30000 false false) 300000000]) = stClosed.
+Proof. vm_compute. reflexivity. Qed.
